@@ -103,12 +103,22 @@ def to_case(cfg, evs, logs, res):
 def run(ctx, model_ok):
     n = 500 if ctx.quick() else 6000
     gens = [gen_case(ctx.rng, ctx.quick()) for _ in range(n)]
+    for i, g in enumerate(gens):
+        if i % 3 == 0 and i >= 2:                       # the same object served other settings before
+            g[0]['before'] = [gens[i - 1][0]['cfg'], gens[i - 2][0]['cfg']][:ctx.rng.choice([1, 2])]
+            if ctx.rng.random() < 0.5:
+                # directed: before = the same settings with the class lists swapped for others, so every event id of
+                # the dump has been judged once under different filters
+                ev_classes = sorted({e >> 24 for _, e, _ in g[1]}) or [4]
+                g[0]['before'].append({'tid': None, 'process': None, 'classes': ev_classes[:1], 'subclasses': []})
+                g[0]['before'].append({'tid': None, 'process': None, 'classes': [], 'subclasses': []})
     res = vlib.run_impl('run_filters.py', {'cases': [g[0] for g in gens]})['results']
     ctx.evaluations = n
     ctx.rule = ('synthetic v2 / v3 dumps (0..40 events over 3 thread ids x 5 event ids incl. boundary ids, 0..8 log records '
                 'with/without process name and pid) x filter configurations (tid None/present/0/absent; class and subclass '
                 'lists empty / single / overlapping / class equal to the top byte of a subclass / 300-entry lists; process '
-                'None/name/str(pid)/empty/non-matching); non-trivial = distinct case where the filtered listing is a '
+                'None/name/str(pid)/empty/non-matching); every third case is served by a parser object that answered 1..4 requests '
+                'with OTHER settings before; non-trivial = distinct case where the filtered listing is a '
                 'non-empty proper subsequence of the unfiltered one (events or logs)')
     cases, idx = [], []
     for i, ((req, evs, logs), r) in enumerate(zip(gens, res)):
